@@ -1759,6 +1759,7 @@ def c16_corr(res, exe, driver, tier, seed, tmp):
         raws = pool.map(_c16_job, jobs, chunksize=max(1, len(jobs) // (NPROC * 8)))
     stats = {"reads": 0, "ends": {}, "switched_between_reads": 0, "raw_initial": 0, "paste_on": 0, "signals_on": 0}
     PON, POFF = b"\x1b[?2004h", b"\x1b[?2004l"
+    steps_cases = []
     for c, raw in zip(cases, raws):
         if isinstance(raw, str):
             raise InfraError("pty driver: " + raw)
@@ -1771,6 +1772,7 @@ def c16_corr(res, exe, driver, tier, seed, tmp):
         stats["signals_on"] += c.meta["signals"]
         expect = tio_key(raw["termios_initial"])       # what was in force before the read
         prev_out = 0
+        prev_obs = 0
         for k, st in enumerate(stops):
             stats["reads"] += 1
             how = rl[k].split(":")[0] if k < len(rl) else "?"
@@ -1799,11 +1801,39 @@ def c16_corr(res, exe, driver, tier, seed, tmp):
             if tio_key(st["left"]) != expect:
                 stats["switched_between_reads"] += 1
             expect = tio_key(st["left"])
+            # the step-level model (Model/RawSteps.v): what the terminal saw of paste switching during this read, given the
+            # number of suspend episodes (the child logs the suspend key) and whether output works at all
+            if not c.meta.get("stdout_close_after"):
+                obs_seg = raw["obs"][prev_obs:st["obs_mark"]]
+                nz = sum(1 for l in obs_seg if l == "Z")
+                seq, i = "", 0
+                while True:
+                    a, b = out.find(PON, i), out.find(POFF, i)
+                    if a < 0 and b < 0:
+                        break
+                    if b < 0 or (0 <= a < b):
+                        seq, i = seq + "h", a + len(PON)
+                    else:
+                        seq, i = seq + "l", b + len(POFF)
+                steps_cases.append(("%d %d %s" % (c.meta["paste"], nz, "fail" if c.meta.get("stdout_full") else "ok"), seq or "-", line, k))
+            prev_obs = st["obs_mark"]
         if not stops:
             raise InfraError("rawmode: the child never paused after a read (%d results) keys=%r meta=%r obs=%r statuses=%r wedged=%r" % (
                 len(rl), c.keys, {k2: v for k2, v in c.meta.items() if k2 != "between"}, raw["obs"], raw["statuses"], raw["wedged"]))
+    if driver and steps_cases:
+        lines = sorted(set(sc[0] for sc in steps_cases))
+        model = dict(zip(lines, run_model(driver, "rawsteps", lines, tmp)))
+        stats["rawsteps"] = {"reads_compared": len(steps_cases), "with_suspend": sum(1 for sc in steps_cases if sc[0].split()[1] != "0"),
+                             "distinct_model_cases": len(lines)}
+        for ml, seq, line, k in steps_cases:
+            mo = model[ml].split()
+            if mo[1] != "restored" or mo[0] != seq:
+                res.disagreements.append({"stream": "rawsteps", "case": "%s | read %d of %s" % (ml, k, line), "impl": seq, "model": model[ml]})
     res.distribution.update({"oracle": stats, "scripts": len(cases)})
-    res.rule = ("rawmode: 1-4 reads on one editor; each read is a short key prefix ended by Enter, C-d on an empty line, C-c, an "
+    res.rule = ("rawsteps: for every completed read whose output is the terminal or /dev/full, the sequence of bracketed-paste "
+                "switches in the bytes the terminal received (h = on, l = off) is compared with the step-level model's for the same "
+                "paste option, number of suspend episodes (the child logs each suspend key) and working / failing output. "
+                "rawmode: 1-4 reads on one editor; each read is a short key prefix ended by Enter, C-d on an empty line, C-c, an "
                 "undecodable byte, a validator error, or Tab/Enter hitting a scripted helper panic at its k-th call; the prefix may contain the "
                 "suspend key C-z (signals option off: rustyline restores the terminal, signals itself, re-enters raw mode); emacs and vi; "
                 "bracketed paste on/off; the signals option on/off; the terminal initially cooked, without canonical mode and echo, "
